@@ -49,7 +49,7 @@ def plan(tier, seed):
 
 def floors(tier):
     return {"distinct_nontrivial": 300, "cls:took_cache_hit": 400, "cls:provider:multi": 300, "cls:provider:forall": 50,
-            "cls:provider:nested": 50, "cls:provider:ruletree": 30, "cls:provider:flatten": 50, "cls:provider:ix": 200, "cls:flattened_plain_numbers_as_cache_keys": 300, "cls:more_than_500_rows_through_one_operator_cache": 20, "cache.check.hit": 2000, "cache.retrieve": 1000}
+            "cls:provider:nested": 50, "cls:provider:ruletree": 30, "cls:provider:flatten": 50, "cls:provider:ix": 200, "cls:flattened_plain_numbers_as_cache_keys": 300, "re:cls:scale:.*": 240, "cls:more_than_500_rows_through_one_operator_cache": 20, "cache.check.hit": 2000, "cache.retrieve": 1000}
 
 
 def _gen_multi(rng):
@@ -124,6 +124,11 @@ def cases(spec, ctx):
         if i % 130 == 7:
             yield {"provider": "multi", "case": _gen_large(rng)}
             continue
+        if i % 52 == 11:
+            # SIZE (eqlmon/multi.gen_scale_case): big domains, joins and self-joins with more than a thousand candidate rows,
+            # triangle joins, 6-9 operands, 5-6 variables
+            yield {"provider": "multi", "case": multi.gen_scale_case(rng, multi.SCALE_FLAVOURS[(i // 52 + spec["sub"]) % len(multi.SCALE_FLAVOURS)])}
+            continue
         k = rng.random()
         if i % 10 == 3:
             # flattened PLAIN NUMBERS (-2 and -1 among them: different values with the same hash) as elements or as universal
@@ -162,6 +167,8 @@ def run_provider(pc, caching, times=3):
 
 def check_case(pc, ctx):
     ctx.cls("cls:provider:" + pc["provider"])
+    if pc["case"].get("scale"):
+        ctx.cls("cls:scale:" + pc["case"]["scale"])
     if pc.get("plain_numbers"):
         ctx.cls("cls:flattened_plain_numbers_as_cache_keys")
     if pc["case"].get("large"):
